@@ -47,6 +47,10 @@ type clSess struct {
 	sent    []*signaling_rpc.SessionRequest
 	closed  bool
 	sendErr error
+	// autoAck: the relay is honest and prompt: a SendMsg submitted under autoAckEpoch is acknowledged
+	// at once (the ack is queued before the submitting goroutine runs on)
+	autoAck      bool
+	autoAckEpoch uint64
 }
 
 func (s *clSess) Context() context.Context { return s.ctx }
@@ -55,6 +59,9 @@ func (s *clSess) Send(m *signaling_rpc.SessionRequest) error {
 		return s.sendErr
 	}
 	s.sent = append(s.sent, m)
+	if sm := m.GetSendMsg(); s.autoAck && sm != nil && m.GetSessionSeqno() == s.autoAckEpoch {
+		s.respCh <- clAck(sm.GetSeqno())
+	}
 	return nil
 }
 func (s *clSess) Recv() (*signaling_rpc.SessionResponse, error) {
